@@ -2,3 +2,4 @@
 import NutilsVerif.Core.Proto
 import NutilsVerif.Props.C15
 import NutilsVerif.Props.C01
+import NutilsVerif.Props.Poly
